@@ -38,4 +38,15 @@ theorem queue_mutex_held_across_send :
     ((rowsOf "EventQueue" "Queue").any fun a => a.loc == "EventQueue.C") = true := by
   decide +kernel
 
+/-- the listener objects carry no mutable state of their own: no method of the three listener types other than the
+    set-up-time `SetEventHandler` assigns to a field of its receiver, so packets and TCP connections handled by the same listener share nothing through it
+    (C18: a datagram is unaffected by later ones, an over-long line affects only its own connection) — what they share
+    are the counters, the event queue and the relay, each synchronised internally -/
+theorem listeners_keep_no_state :
+    (Gen.accessTable.filter fun a =>
+      (a.ty == "StatsDUDPListener" || a.ty == "StatsDTCPListener" || a.ty == "StatsDUnixgramListener") && a.write && a.method != "SetEventHandler") = [] ∧
+    ((rowsOf "StatsDTCPListener" "HandleConn").any fun a => a.loc == "StatsDTCPListener.LineParser.LineToEvents()") = true ∧
+    ((rowsOf "StatsDUDPListener" "HandlePacket").any fun a => a.loc == "StatsDUDPListener.Relay.RelayLine()") = true := by
+  decide +kernel
+
 end SE.Gen.Tie
